@@ -113,6 +113,21 @@ def one(ctx, rng, k):
                     ctx.corr_fail('Model.Window/tStore', f'window {n[1]} {a0} {a1} {b0} {b1}', ans[:160], real[:160], desc)
         except Exception as e:  # noqa
             ctx.corr_fail('Model.Window/tStore', f'window {n[1]} {a0} {a1} {b0} {b1}', 'readable footer', f'{type(e).__name__}: {e}', desc)
+    # K: Model/Window.axisWords + windowAxis (header words of both line axes of the windowed file, and the axis regenerated
+    # from them) vs the real windowed file's header and vs the source axis slice
+    if m is not None:
+        try:
+            hw0 = spec.Header(bw[:8192])
+            if not hw0.is2d:
+                for nm, ax, c0, c1, real3 in (('il', il, a0, a1, (hw0.n_il, hw0.il0, hw0.dil)), ('xl', xl, b0, b1, (hw0.n_xl, hw0.xl0, hw0.dxl))):
+                    ctx.stats['corr_requests'] += 1
+                    req = f'winaxes {int(ax[0])} {int(ax[1]) - int(ax[0])} {c0} {c1}'
+                    ans = m.ask(req)
+                    real = ' '.join(str(int(v)) for v in real3) + ' | ' + ' '.join(str(int(v)) for v in ax[c0:c1])
+                    if ans != real:
+                        ctx.corr_fail('Model.Window/axisWords', req, ans[:160], real[:160], desc)
+        except Exception as e:  # noqa
+            ctx.corr_fail('Model.Window/axisWords', f'winaxes {a0} {a1} {b0} {b1}', 'readable header', f'{type(e).__name__}: {e}', desc)
     if bw != br:
         probs = []
         hw, hr = spec.Header(bw[:8192]), spec.Header(br[:8192])
